@@ -1,9 +1,20 @@
 // C18 — peer connections deliver each channel's messages intact, in order, authenticated.
+//
+// Five parts, all on the real code of libs/p2p/conn and libs/p2p (see the file of each part):
+//
+//	stream    SecretConnection Write/Read byte stream; the raw connection's Read answers are the environment
+//	          (deviation-bounded exhaustive exploration of short reads) x write sequences x read-size patterns
+//	handshake MakeSecretConnection against a scripted peer: every enumerated tampering of the peer's messages
+//	mconn     explicit-state search over send/step/flush/deliver events of a stepped sending MConnection and a
+//	          real receiving MConnection (its own recvRoutine on a wire that reports "blocked in Read")
+//	stack     MConnection over SecretConnection over the raw wire (what peer.go builds) under short raw reads
+//	peer      the production inbound-peer path of the Switch: the NodeInfo key vs the authenticated key
 package main
 
 import (
 	"fmt"
 	"os"
+	"runtime"
 	"runtime/debug"
 
 	"verif/vk"
@@ -15,30 +26,50 @@ import (
 func main() {
 	log.Root().SetHandler(log.DiscardHandler())
 	installDetRand()
-	debug.SetGCPercent(400) // executions allocate and drop 32 KiB frames; trade some memory for GC time
+	debug.SetGCPercent(400) // executions allocate and drop 32 KiB frames and 100 KiB buffers; trade memory for GC time
 	r := vk.Start("C18", "model_checking")
 	if r.ReplayPath != "" {
-		vk.Fatalf("replay: the replay file names the part, configuration and deviations; re-run the check to reproduce")
+		vk.Fatalf("replay: a C18 replay file names the part, the configuration/events and the deviations (choice list); the check is deterministic, re-run it to reproduce")
 	}
 	if v, t := conn.VerifC18FrameMode(); v != 0xF0 || t != 0x0F {
-		vk.Fatalf("compiled-in frame mode is %#x|%#x, the harness models version00|compress (the property fixes the default mode)", v, t)
+		vk.Fatalf("compiled-in frame mode is %#x|%#x; the harness's scripted peer speaks version00|compress (the property fixes the compiled-in default)", v, t)
 	}
-	only := os.Getenv("C18_ONLY")
-	if only == "" || only == "stream" {
-		phaseStream(r)
-	}
+	g0 := runtime.NumGoroutine()
+	only := os.Getenv("C18_ONLY") // development aid: run one part
 	if only == "" || only == "handshake" {
 		phaseHandshake(r)
-	}
-	if only == "" || only == "mconn" {
-		phaseMconn(r)
-	}
-	if only == "" || only == "stack" {
-		phaseStack(r)
 	}
 	if only == "" || only == "peer" {
 		phasePeer(r)
 	}
-	fmt.Println("done")
+	if only == "" || only == "stream" {
+		phaseStream(r)
+	}
+	if only == "" || only == "stack" {
+		phaseStack(r)
+	}
+	if only == "" || only == "mconn" {
+		phaseMconn(r)
+	}
+	if only != "" {
+		r.Capped("C18_ONLY=" + only + ": only one part was run")
+	}
+	runtime.GC()
+	r.Set("goroutines_start_end", []int{g0, runtime.NumGoroutine()})
+	trans := r.Get("transitions")
+	r.Set("traces_validated_against_impl", trans)
+	r.Set("evaluations", trans)
+	r.Set("distinct_nontrivial", r.Get("states"))
+	r.Set("rule", "every transition is executed on the real code and compared with a plain Go reference (byte-stream prefix model, per-channel message lists, expected accept/reject per tamper class). "+
+		"states = executions of the deviation searches (stream, stack) + distinct canonical states of the event search (mconn) + distinct (tamper class, outcome) pairs (handshake, peer); "+
+		"transitions = Read/Write calls (stream) + choice points (stack) + event-search transitions (mconn) + tamper cases (handshake, peer)")
+	r.Assume("the frame mode is the compiled-in default (version00|compress); sealed and raw frames are never produced (the property says the same)")
+	r.Assume("cryptographic hardness (ed25519, curve25519, SHA-256) is trusted; ephemeral keys are drawn from a seeded stream substituted for crypto/rand.Reader")
+	r.Assume("stream part: every execution starts from a deep copy of the state produced once by a real two-sided handshake; all other parts run a fresh real handshake per execution")
+	r.Assume("handshake part: the peer's two messages arrive as two segments (a raw Read never spans both), like the io.Pipe of the package's tests; coalesced arrival is reported as an observation only")
+	r.Assume("mconn part: the sending MConnection is not started; its core is stepped through hooks calling trySendBytes, sendPacketMsg, sendSomePacketMsgs, flush, updateStats; the select/timer glue of sendRoutine, ping/pong and flow-rate throttling are outside the bound (timers are configured to hours)")
+	r.Assume("a short write is not an environment answer (io.Writer forbids it without an error); write chunking is modelled as partial availability at the reader, i.e. short reads")
+	r.Assume("peer part: a Switch built by a hook with the fields NewP2pManager sets (no listener, no discovery table, not started) runs the production addInboundPeerWithConfig")
+	fmt.Printf("C18 states=%d transitions=%d\n", r.Get("states"), trans)
 	r.Finish()
 }
